@@ -47,6 +47,7 @@ struct vprec {
     std::shared_ptr<matrix> A;
     std::vector<double> dinv;
     mutable size_t count = 0;
+    mutable double maxout = 0, maxin = 0;     // largest ||P v|| and ||v|| seen during a solve
 
     void init(std::shared_ptr<build_matrix> M, const params &p, const backend_params &bp) {
         kind = p.get("kind", std::string("amg"));
@@ -78,6 +79,9 @@ struct vprec {
         if (amg) amg->apply(rhs, x);
         else if (kind == "dummy") dummy->apply(rhs, x);
         else for (size_t i = 0; i < dinv.size(); ++i) x[i] = dinv[i] * rhs[i];
+        double so = 0, si = 0;
+        for (size_t i = 0, n = amgcl::backend::rows(*A); i < n; ++i) { so += x[i] * x[i]; si += rhs[i] * rhs[i]; }
+        maxout = std::max(maxout, std::sqrt(so)); maxin = std::max(maxin, std::sqrt(si));
     }
     std::shared_ptr<matrix> system_matrix_ptr() const { return A; }
     const matrix &system_matrix() const { return *A; }
@@ -200,15 +204,23 @@ static double run_solve(const solve_in &in, vr::obj *extra = 0, size_t *it_out =
          .i("ml", in.prm.get("precond.amg.max_levels", -1));
     ++g_cases;
     double rep_out = -1;
+    if (const char *dump = getenv("C01_DUMPMAT")) {     // investigation aid: matrix of the (single) selected case
+        FILE *fp = fopen(dump, "w");
+        fprintf(fp, "%%%%MatrixMarket matrix coordinate real general\n%ld %ld %ld\n", (long)in.A->nrows, (long)in.A->ncols, (long)in.A->ptr[in.A->nrows]);
+        for (size_t i = 0; i < in.A->nrows; ++i) for (ptrdiff_t q = in.A->ptr[i]; q < in.A->ptr[i + 1]; ++q)
+            fprintf(fp, "%ld %ld %.17g\n", (long)i + 1, (long)in.A->col[q] + 1, in.A->val[q]);
+        fclose(fp);
+    }
     try {
         Solver solve(in.A, in.prm);
         std::vector<double> x = in.x0;
         ld nf = norm2(in.f);
         bool zero = nf < 4.4408920985006262e-16L;       // amgcl::detail::eps<double>(1): the solvers' own shortcut test
-        solve.precond().count = 0;
+        solve.precond().count = 0; solve.precond().maxout = 0; solve.precond().maxin = 0;
         size_t it; double rep;
         std::tie(it, rep) = solve(in.f, x);
         size_t nP = solve.precond().count;
+        double maxout = solve.precond().maxout, maxin = solve.precond().maxin;
         if (it_out) *it_out = it;
         rep_out = rep;
         bool finite = std::isfinite(rep);
@@ -221,6 +233,10 @@ static double run_solve(const solve_in &in, vr::obj *extra = 0, size_t *it_out =
             spmv_abs(A, x, in.f, r, gabs);
             ld den = zero ? 1.0L : nf;                 // zero rhs: the solver returns ||rhs|| itself
             ld flo = 2.220446049250313e-16L * norm2(gabs) / den;
+            ld ainf = 0;
+            for (size_t i = 0; i < A.nrows; ++i) { ld t = 0; for (ptrdiff_t q = A.ptr[i]; q < A.ptr[i + 1]; ++q) t += std::fabs((ld)A.val[q]); ainf = std::max(ainf, t); }
+            // largest intermediate magnitudes seen by the preconditioner during the solve
+            o.i("gro", md(2.220446049250313e-16L * ainf * maxout / den)).i("gin", md(maxin / den));
             ld tru;
             if (in.side == "left" && in.sided && !zero) {
                 size_t n = A.nrows;
@@ -390,7 +406,7 @@ static void mode_solve(int shard, int nshards) {
     std::vector<int> order(8 * 9 * 4);
     for (size_t i = 0; i < order.size(); ++i) order[i] = i;
     { vr::rng g(seed * 7919 + 11); for (size_t k = order.size(); k > 1; --k) std::swap(order[k - 1], order[g.below((int)k)]); }
-    int rounds = th ? 6 : 1;
+    int rounds = th ? 12 : 2;
     long cfgid = 0;
     for (int round = 0; round < rounds; ++round)
     for (size_t oi = 0; oi < order.size(); ++oi) {
